@@ -51,7 +51,7 @@ def key(l):
     return None
 base=set(); 
 for l in open(sys.argv[1]):
-    k=key(l)
+    k=key(l.rstrip('\n'))
     if k: base.add(k)
 for l in open(sys.argv[2]):
     l=l.rstrip('\n')
